@@ -61,7 +61,7 @@ def grid(K, g, negate=False):
         for f in (["mid"] if t2 % 2 == 0 else ["mid", "lo", "hi"]):
             t2s.append(t2)
             ths.append(g.thr(t2, f))
-    t2s += [-1, 2 * K - 1]
+    t2s += [-99, 99]          # +-inf: beyond every (also every materialised) score
     ths += [-np.inf, np.inf]
     if negate:
         return [-t for t in t2s], [-t for t in ths]
@@ -71,7 +71,7 @@ def grid(K, g, negate=False):
 def probe(ev, s, o, h, K, g, qs, negate=False, base_g=None):
     """o = abstract object behind s; g = the concretisation s was built with."""
     t2s, ths = grid(K, base_g or g, negate)
-    e = ev("probe", h=h, t2=t2s, cm=[], rates={}, thr={}, auc=[0, 0], pauc=[0, 0],
+    e = ev("probe", h=h, t2=t2s, cm=[], rates={}, thr={}, auc=[0, 0], pauc=[0, 0], pauc2=[0, 0],
            eer={"ok": False, "e6": 0, "t4": 0})
     try:
         th = np.array(ths)
@@ -91,6 +91,7 @@ def probe(ev, s, o, h, K, g, qs, negate=False, base_g=None):
         if len(o["pos"]) and len(o["neg"]):
             e["auc"] = gamma.proj_rat(s.auc(), 5000, ulps=64)
             e["pauc"] = gamma.proj_rat(s.auc(0.25, 0.75), 20000, ulps=64)
+            e["pauc2"] = gamma.proj_rat(s.auc(0.1, 0.6, x_axis="fnr", y_axis="tnr"), 20000, ulps=64)
             t, ee = s.eer()
             proj = sd.ThrProjector(g, sorted(set(o["pos"]) | set(o["neg"])))
             e["eer"] = {"ok": True, "e6": int(round(float(ee) * 1e6)),
@@ -139,8 +140,8 @@ def events_for_case(o, cid, g, g2, K, qs, ids):
     return evs
 
 
-AFFINE = [gamma.affine(2.5, -7.0), gamma.affine(0.5, 100.0), gamma.affine(3.0, 0.125),
-          gamma.affine(0.1, 0.3), gamma.affine(1e-3, 1e3), gamma.affine(17.0, -400.0)]
+AFFINE = [gamma.affine(2.5, -7.0), gamma.affine(1e-3, 1e3), gamma.affine(3.0, 0.125),
+          gamma.affine(0.1, 0.3), gamma.affine(0.5, 100.0), gamma.affine(17.0, -400.0)]
 
 
 def run(ctx: core.Ctx):
